@@ -280,6 +280,10 @@ namespace hs
             op_foreign_adjacent(op);
         else if (k == "drain")
             op_drain(op);
+        else if (k == "bad")
+            op_bad(op);
+        else if (k == "badblk")
+            op_bad_block(op);
         else if (k == "cor")
             op_corrupt(op);
         else if (k == "corsweep")
